@@ -125,11 +125,89 @@ fn reweighted(inst: &Value, i: u64, opts: &TableOpts, sm: &mut Summary) {
     }
 }
 
+/// History variants on the same thread, right after the instance itself was built with the SAME vertex labels:
+/// (a) the same graph with its edges listed in another order (the expected table is the specification's table with
+/// the bit-masks permuted); (b) the bit-identical graph for another dimension D' (loop numbers and spanning flags do
+/// not depend on D, so omega' follows exactly).  What an earlier build left behind must not influence a later one.
+fn history_variants(inst: &Value, i: u64, opts: &TableOpts, sm: &mut Summary) {
+    let g = InstGraph::parse(&inst["g"]);
+    let e = g.ne();
+    if e < 2 || e > 6 || !g.exact_weights() { return; }
+    let mut rng = rng_for(opts.seed, i + opts.base_idx);           // the same draws as build_for: same labels
+    let map = g.label_map(&mut rng, opts.plain_labels);
+    let _swap: Vec<bool> = (0..e).map(|_| !opts.plain_labels && rng.gen_bool(0.5)).collect();
+    let base = g.to_spec(&map, &[]);
+    let n = 1usize << e;
+    let wd = g.wd as f64;
+    let lnum = inst["L"].as_i64().unwrap_or(1).max(1) as usize;
+    let ident = |what: &str| json!({"line": inst, "idx": i + opts.base_idx, "history": what});
+    // make sure the original order has been built on this thread with exactly these labels
+    let _ = build(&base, vec![vec![0isize; lnum]; e], g.d);
+    // (a) permuted twin
+    use rand::seq::SliceRandom;
+    let mut perm: Vec<usize> = (0..e).collect();
+    perm.shuffle(&mut rng);
+    if perm.iter().enumerate().any(|(a, b)| a != *b) {
+        let spec = crate::dynsampler::GraphSpec {
+            edges: perm.iter().map(|&k| base.edges[k]).collect(), mass: perm.iter().map(|&k| base.mass[k]).collect(),
+            weights: perm.iter().map(|&k| base.weights[k]).collect(), ext: base.ext.clone() };
+        let out = build(&spec, vec![vec![0isize; lnum]; e], g.d);
+        sm.count("history_permuted_builds");
+        let div = inst["div"].as_bool().unwrap();
+        match &out {
+            BuildOut::Panic(m) => sm.violation("C05", format!("build_sampler panicked on the same graph with permuted edge order: {}", m), ident("permuted"), json!({"perm": perm})),
+            BuildOut::Err(_) => if !div { sm.violation("C05", "the same graph with its edges in another order, built right after it, is rejected although no proper subset is divergent".into(), ident("permuted"), json!({"perm": perm})) },
+            BuildOut::Ok(s) => {
+                if div { sm.violation("C05", "the same graph with its edges in another order, built right after it, is accepted although a proper subset is divergent".into(), ident("permuted"), json!({"perm": perm})); }
+                else {
+                    let js = s.to_json();
+                    let tbl = arr(&js["table"]["table"]);
+                    let mut bad = vec![];
+                    for idp in 0..n.min(tbl.len()) {
+                        let id: usize = (0..e).filter(|b| idp >> b & 1 == 1).map(|b| 1usize << perm[b]).sum();
+                        let t = &tbl[idp];
+                        let (xl, xs, xw) = (as_i64(&inst["l"][id]), inst["s"][id].as_bool().unwrap(), as_i64(&inst["w"][id]) as f64 / wd);
+                        if as_i64(&t["loop_number"]) != xl || t["mass_momentum_spanning"].as_bool().unwrap() != xs || t["generalized_dod"].as_f64().unwrap() != xw {
+                            bad.push(json!({"id_permuted": idp, "id": id, "code": t, "spec": {"l": xl, "s": xs, "w": xw}}));
+                        }
+                    }
+                    if !bad.is_empty() { sm.violation("C03", format!("{} table entries of the edge-permuted twin (built right after the original) differ from the specification", bad.len()), ident("permuted"), json!({"perm": perm, "entries": bad})); }
+                }
+            }
+        }
+    }
+    // (b) the bit-identical graph for another D
+    let d2 = g.d % 6 + 1;
+    let wsum = |id: usize| -> f64 { (0..e).filter(|b| id >> b & 1 == 1).map(|b| base.weights[b]).sum() };
+    let l_of = |id: usize| as_i64(&inst["l"][id]) as f64;
+    let dod2 = wsum(n - 1) - d2 as f64 / 2.0 * l_of(n - 1);
+    let gd2: Vec<f64> = (0..n).map(|id| if id == 0 { 1.0 } else { wsum(id) - d2 as f64 / 2.0 * l_of(id) - if inst["s"][id].as_bool().unwrap() { dod2 } else { 0.0 } }).collect();
+    let div2 = (1..n - 1).any(|id| gd2[id] <= 0.0);
+    let out = build(&base, vec![vec![0isize; lnum]; e], d2);
+    sm.count("history_other_d_builds");
+    match &out {
+        BuildOut::Panic(m) => sm.violation("C05", format!("build_sampler panicked for the same graph in D = {}: {}", d2, m), ident("other_d"), json!({"D2": d2})),
+        BuildOut::Err(_) => if !div2 { sm.violation("C05", format!("the bit-identical graph built for D = {} right after D = {} is rejected although no proper subset is divergent there", d2, g.d), ident("other_d"), json!({"D2": d2})) },
+        BuildOut::Ok(s) => {
+            if div2 { sm.violation("C05", format!("the bit-identical graph built for D = {} right after D = {} is accepted although a proper subset is divergent there", d2, g.d), ident("other_d"), json!({"D2": d2})); }
+            else {
+                let js = s.to_json();
+                let tbl = arr(&js["table"]["table"]);
+                let bad: Vec<Value> = (0..n.min(tbl.len())).filter(|&id| tbl[id]["generalized_dod"].as_f64().unwrap() != gd2[id]).map(|id| json!({"id": id, "code": tbl[id]["generalized_dod"], "exact": gd2[id]})).collect();
+                if !bad.is_empty() || s.dod() != dod2 || s.d() != d2 {
+                    sm.violation("C03", format!("the table of the bit-identical graph built for D = {} right after D = {} is not the table for D = {}", d2, g.d, d2), ident("other_d"), json!({"D2": d2, "entries": bad, "dod": s.dod(), "dod_exact": dod2}));
+                }
+            }
+        }
+    }
+}
+
 pub fn run(lines: &[Value], opts: &TableOpts, other_process_hashes: Option<Vec<String>>) -> Summary {
     let mut sm = Summary::default();
     for (i, inst) in lines.iter().enumerate() {
         sm.evaluations += 1;
         if (i as u64 + opts.seed) % 2 == 0 || lines.len() == 1 { reweighted(inst, i as u64, opts, &mut sm); }
+        if (i as u64 + opts.seed) % 3 == 0 || lines.len() == 1 { history_variants(inst, i as u64, opts, &mut sm); }
         let (g, map, _swap, out) = build_for(inst, i as u64 + opts.base_idx, opts);
         let e = g.ne();
         let div = inst["div"].as_bool().unwrap();
